@@ -39,7 +39,7 @@ LEVEL_TEXT = (
     "storages over RFC 7386 merge-patches: roundtrip_ann / roundtrip_status / roundtrip_smart / roundtrip_diffbase, "
     "purge_complete, isolation (store, purge, merge; other prefixes, user data), deterministic, "
     "valid_name_v2 / valid_name_v1 under explicit decidable hypotheses, distinct; witness theorems show every "
-    "hypothesis is necessary (they are the open findings F6, F6b-F6e). The model is tied to the real storages by a "
+    "hypothesis is necessary (they are the open findings F6, F6b-F6f). The model is tied to the real storages by a "
     "differential run on every check; an independent Python oracle decides violations."
 )
 TIE = "D: real storages (real constructors) vs. Lean driver on generated scenarios; hash suffixes passed in from the real make_suffix"
@@ -74,6 +74,7 @@ THEOREMS = [
     ("Kopf.Props.C16", "Kopf.C16.edge_witness_front"),
     ("Kopf.Props.C16", "Kopf.C16.sfx_witness"),
     ("Kopf.Props.C16", "Kopf.C16.v1_long_prefix_witness"),
+    ("Kopf.Props.C16", "Kopf.C16.v1_negative_cut_witness"),
     ("Kopf.Props.C16", "Kopf.C16.collision_witness"),
     ("Kopf.Props.C16", "Kopf.C16.safe_form_witness"),
     ("Kopf.Props.C16", "Kopf.C16.forged_witness"),
@@ -389,8 +390,10 @@ def gen_id(rng, plen: int) -> tuple[str, str, str]:
         band, L = "v1-cut", l1 - 7 + rng.randint(-2, 2)
     elif r < 0.86:
         band, L = "mid", rng.randint(13, 120)
-    elif r < 0.95:
+    elif r < 0.94:
         band, L = "long", rng.randint(121, 298)
+    elif r < 0.96 and plen >= 56:
+        band, L = "prefix+1", plen + 1 + rng.choice([0, 0, -1, 1])     # negative v1 cut keeping 56 characters
     else:
         band, L = "max", rng.choice([299, 300])
     L = max(1, min(300, L))
@@ -634,8 +637,10 @@ def gen_scenario(rng) -> dict:
                 o, okind = k[:i] + swap + k[i + 1:], "safe-variant"
             else:
                 o, okind = k + "/sub", "child"
-        elif r < 0.90:
+        elif r < 0.85:
             o, okind = (k + "/" + ident(rng))[:300], "child"
+        elif r < 0.90:
+            o, okind = k.translate(SAFE_TABLE), "safe-form"
         else:
             o, okind = "", "forged"      # filled in by run_scenario from the generated name of k (needs the storage)
         if o != k and o not in others:
